@@ -24,7 +24,7 @@ BUILDER_RULES = ["omit", "rename", "merge_into", "compose", "properties", "dupli
 OPTION_RULES = ["omit", "rename", "rename_arguments", "array_to_append", "map_to_index", "unfold_boolean", "struct_fields_as_arguments",
                 "struct_fields_as_options", "disjunction_as_options", "duplicate", "add_assignment", "add_comments"]
 ALL_RULES = ["builder." + r for r in BUILDER_RULES] + ["option." + r for r in OPTION_RULES]
-WT = {"Path", "ArgDeclared"}
+WT = {"Path", "ArgDeclared", "ValueType"}
 
 
 def rule_name(r):
@@ -37,6 +37,14 @@ def signature(rec, v):
     if v["witness"] == "builder-without-options-dropped":
         site = "Rewriter.ApplyTo"     # happens on every ApplyTo, whatever the rule
     return "C17/%s/%s/%s" % (site, clause, v["witness"])
+
+
+def gate(ctx, msg):
+    """A vacuity / self-test problem makes the run inconclusive - unless violations were observed: those are reported first."""
+    if ctx.failures:
+        ctx.notes.append("GATE (not fatal, violations were observed): " + msg)
+    else:
+        raise core.Inconclusive(msg)
 
 
 def replay_and_judge(ctx, tlc_out, tag, extra_args=()):
@@ -146,16 +154,20 @@ def run(ctx):
         samples += s["samples"] or []
     vacuous = [r for r in ALL_RULES if per_rule_nt.get(r, 0) == 0]
     if vacuous:
-        raise core.Inconclusive("rules that never changed a real state: %s" % vacuous)
+        gate(ctx, "rules that never changed a real state: %s" % vacuous)
     for cls in ("exact", "folded", "none", "other"):
         if per_sel.get(cls, 0) == 0:
-            raise core.Inconclusive("selector class never exercised: %s" % cls)
+            gate(ctx, "selector class never exercised: %s" % cls)
     if not all(per_len.get(str(n), 0) > 0 for n in ((1, 2, 3) if quick else (1, 2, 3, 4))):
-        raise core.Inconclusive("history lengths exercised: %s" % per_len)
+        gate(ctx, "history lengths exercised: %s" % per_len)
     for rn, k in sorted(drift1.items()):
         # diagnostic only (DESIGN 7.3): the documented effect is not itself a clause of C17
         ctx.notes.append("MODEL-DRIFT property=C17 %s: %d one-rule step(s) differ from the rule's documented effect (judged by the contracts only)" % (rn, k))
-    binding = selftest(ctx)
+    try:
+        binding = selftest(ctx)
+    except core.Inconclusive as e:
+        gate(ctx, str(e))
+        binding = "not established: %s" % e
     cov = {
         "states": sum(r["distinct"] for r in tlc_all),
         "transitions": sum(r["generated"] for r in tlc_all),
